@@ -7,10 +7,10 @@ package main
 // sentinel that the frozen classification table allows that function to treat as normal end.
 
 import (
-	"os"
 	"fmt"
 	"go/token"
 	"go/types"
+	"os"
 	"sort"
 	"strings"
 
@@ -55,17 +55,17 @@ var benignSentinels = map[string]bool{
 // sentinelConversions: reviewed places where one signal is deliberately translated into a benign one
 // (outermost function | from -> to), one line of reason each.
 var sentinelConversions = map[string]string{
-	"memstore.SkipListSStableIterator.Next|skiplist.Done->sstables.Done":     "adapter: the skip list's end-of-iteration becomes the table iterator's",
-	"sstables.SSTableIterator.Next|skiplist.Done->sstables.Done":             "adapter: end of the index iterator is the end of the scan",
-	"sstables.SSTableFullScanIterator.Next|skiplist.Done->sstables.Done":     "adapter: end of the index iterator is the end of the scan (the data reader's io.EOF is NOT: a data file that ends before its index is damage)",
-	"sstables.V0SSTableFullScanIterator.Next|skiplist.Done->sstables.Done":   "adapter: end of the index iterator is the end of the scan",
-	"sstables.SSTableMergeIteratorContext.Next|sstables.Done->pq.Done":       "adapter: an exhausted table leaves the merge heap",
-	"sstables.DiskKeyIndexIterator.Next|io.EOF->skiplist.Done":               "the index file is read to its end: end-of-file of the index is the end of the index",
-	"recordio.FileReader.ReadNext|recordio.MagicNumberMismatchErr->io.EOF":   "block-aligned files end in zero padding: a marker mismatch followed only by zeros is the end of the file (checked byte by byte)",
-	"recordio.readNextV2|recordio.MagicNumberMismatchErr->io.EOF":            "as above, v2 files",
-	"recordio.readNextV3|recordio.MagicNumberMismatchErr->io.EOF":            "as above, v3 files",
-	"simpledb.DB.GetBytes|memstore.KeyTombstoned->simpledb.ErrNotFound":      "a tombstone in the memstore means the key is deleted",
-	"simpledb.DB.GetBytes|memstore.KeyNotFound->simpledb.ErrNotFound":        "absent from the memstore and from the tables",
+	"memstore.SkipListSStableIterator.Next|skiplist.Done->sstables.Done":   "adapter: the skip list's end-of-iteration becomes the table iterator's",
+	"sstables.SSTableIterator.Next|skiplist.Done->sstables.Done":           "adapter: end of the index iterator is the end of the scan",
+	"sstables.SSTableFullScanIterator.Next|skiplist.Done->sstables.Done":   "adapter: end of the index iterator is the end of the scan (the data reader's io.EOF is NOT: a data file that ends before its index is damage)",
+	"sstables.V0SSTableFullScanIterator.Next|skiplist.Done->sstables.Done": "adapter: end of the index iterator is the end of the scan",
+	"sstables.SSTableMergeIteratorContext.Next|sstables.Done->pq.Done":     "adapter: an exhausted table leaves the merge heap",
+	"sstables.DiskKeyIndexIterator.Next|io.EOF->skiplist.Done":             "the index file is read to its end: end-of-file of the index is the end of the index",
+	"recordio.FileReader.ReadNext|recordio.MagicNumberMismatchErr->io.EOF": "block-aligned files end in zero padding: a marker mismatch followed only by zeros is the end of the file (checked byte by byte)",
+	"recordio.readNextV2|recordio.MagicNumberMismatchErr->io.EOF":          "as above, v2 files",
+	"recordio.readNextV3|recordio.MagicNumberMismatchErr->io.EOF":          "as above, v3 files",
+	"simpledb.DB.GetBytes|memstore.KeyTombstoned->simpledb.ErrNotFound":    "a tombstone in the memstore means the key is deleted",
+	"simpledb.DB.GetBytes|memstore.KeyNotFound->simpledb.ErrNotFound":      "absent from the memstore and from the tables",
 }
 
 // error constructors: not failure sources
